@@ -12,11 +12,23 @@
   walking the map, so these loops are inventoried and classified like the map walks; a loop that
   loses its `sorted` flag (the sort after it was removed) no longer matches its row.
 
+  Kind `sortcmp` = a sort with a custom comparator (sort.Slice / SliceStable / slices.SortFunc with
+  a less function, sort.Sort / Stable with a Less method).  A sort canonicalises what came out of a
+  map only if the comparator is a TOTAL order on the elements; one that ignores part of the element
+  (natural order without tie-break: r1 = r01, stage = stage0) leaves tied elements in map order.  Class =
+  shape of the comparator (direct / calls / multi / loop / iface / named); the verdict says why the
+  order is total on the elements that can occur, or why ties do not matter.
+
+  Rows of sites that no longer exist MUST BE REMOVED once the fix is in /repo: a leftover pre-fix row
+  (`.finding`, class without `sorted`) would silently accept a regression to the pre-fix loop.
+
   ROWS MUST STAY SORTED BY IDENTITY (bytewise), see `covered`.
 
   Row = site identity `kind|file|function|expression|ordinal` (no line numbers), the class the
   extractor computed when the row was written, and a verdict:
     .thm c          covered by the theorem(s) named by `Cover c` (BMV.Props.C07.cover_sound)
+    (sites of class `sortedkeys` — collect into a fresh local slice, library sort before any other
+    use — have NO row: they are accepted by the generic rule, see `Sched.sortedKeysKey`)
     .sortedAfter    the slice built by the walk is sorted before use (class has flag "sorted";
                     theorem opcodes_sorted_det / sort_perm)
     .insens why     order insensitive for the stated reason (read from the code, not proved)
@@ -99,7 +111,7 @@ def rows : List Row := [
   ⟨0x6b89f360dbbb5589, "ordered|pkg/basm/basm.go|(*BasmInstance).BasmInstanceInit|procbuilder.Allopcodes|0", ["append", "calls", "output"], .insens "runs in BasmInstanceInit, before any dynamic instruction has been created by this assembler run: Allopcodes still holds its static part (and what a loaded machine file created, in file order)"⟩,
   ⟨0xf7235ee36d7f3a9c, "ordered|pkg/basm/basm.go|(*BasmInstance).PrintInit|bi.matchers|0", ["calls", "output"], .debugOnly⟩,
   ⟨0x4b6a75d50efca41b, "ordered|pkg/basm/basm.go|(*BasmInstance).String|bi.matchers|0", ["calls", "concat"], .debugOnly⟩,
-  ⟨0x659ea33b0843819f, "ordered|pkg/basm/creatorbm.go|(*BasmInstance).CreateConnectingProcessor|procbuilder.Allopcodes|0", ["append", "calls", "early", "sorted"], .sortedAfter⟩,
+  ⟨0x09f46cbf5513dd83, "ordered|pkg/basm/creatorbm.go|(*BasmInstance).CreateConnectingProcessor|procbuilder.Allopcodes|0", ["append", "calls", "sorted"], .sortedAfter⟩,
   ⟨0x51bca7163fba20a6, "ordered|pkg/basm/fragmentanalyzer.go|fragmentAnalyzer|bi.matchers|0", ["append", "calls", "output"], .insens "filters bi.matchers into a list that is only used for any-match tests on fragment lines"⟩,
   ⟨0x6878880c31ad28da, "ordered|pkg/basm/fragmentanalyzer.go|fragmentAnalyzer|bi.matchers|1", ["accum", "calls", "early", "output"], .insens "a second matching matcher is an error (ambiguous, more than one operator match): the result is the unique matching opcode or the error, whatever the order"⟩,
   ⟨0x38db60523639280a, "ordered|pkg/basm/matcherresolver.go|matcherResolver|bi.matchers|0", ["accum", "append", "calls", "output", "sorted"], .unproved "the indices of the matching matchers are sorted, but the indices of dynamically created instructions are themselves assigned in section-map order: choice keys and the numbering of alternatives may follow; CodeChoice takes the strict minimum word size; no artefact difference in repeated runs (corpus dyn_order_*.basm exercise it)"⟩,
@@ -182,22 +194,6 @@ def rows : List Row := [
   ⟨0x75c9c97ad94c955e, "range|pkg/basm/basm.go|(*BasmInstance).String|bi.sections|0", ["calls", "concat"], .debugOnly⟩,
   ⟨0x2c64ec414b89a95f, "range|pkg/basm/basm.go|(*BasmInstance).String|bi.symbols|0", ["calls", "concat"], .debugOnly⟩,
   ⟨0xd77dd96267094d49, "range|pkg/basm/callresolver.go|callResolver|bi.sections|0", ["calls", "early", "keyed", "output"], .thm .framedWalk⟩,
-  ⟨0x072b8fd125061815, "range|pkg/basm/cluster.go|(*BasmInstance).Assembler2Cluster|bi.clusteredNames|0", ["append", "calls", "output"], .finding "C07-basm-cluster-meta-order"⟩,
-  ⟨0x6039df5dfa07ae88, "range|pkg/basm/cluster.go|(*BasmInstance).Assembler2Cluster|bi.clusteredNames|1", ["accum", "calls", "keyed", "output"], .thm .framedWalk⟩,
-  ⟨0x52e69270d333c4b1, "range|pkg/basm/cluster.go|(*BasmInstance).Assembler2Cluster|bi.global.LoopMeta()|0", ["concat"], .finding "C07-basm-cluster-meta-order"⟩,
-  ⟨0xedce34ab7072716c, "range|pkg/basm/cluster.go|(*BasmInstance).Assembler2Cluster|cp.LoopMeta()|0", ["concat"], .finding "C07-basm-cluster-meta-order"⟩,
-  ⟨0x1ed521f1ced2855e, "range|pkg/basm/cluster.go|(*BasmInstance).Assembler2Cluster|l1.LoopMeta()|0", ["accum", "calls", "concat"], .finding "C07-basm-cluster-meta-order"⟩,
-  ⟨0xf285e7ece3ad96c9, "range|pkg/basm/cluster.go|(*BasmInstance).Assembler2Cluster|l1.LoopMeta()|1", ["concat"], .finding "C07-basm-cluster-meta-order"⟩,
-  ⟨0x98e9fe66bcc0f386, "range|pkg/basm/cluster.go|(*BasmInstance).Assembler2Cluster|l1.LoopMeta()|2", ["concat"], .finding "C07-basm-cluster-meta-order"⟩,
-  ⟨0x6cb8869d22c533df, "range|pkg/basm/cluster.go|(*BasmInstance).Assembler2Cluster|l1.LoopMeta()|3", ["concat"], .finding "C07-basm-cluster-meta-order"⟩,
-  ⟨0x0875adc0accfc587, "range|pkg/basm/cluster.go|(*BasmInstance).Assembler2Cluster|l1.LoopMeta()|4", ["accum", "append", "calls", "concat"], .finding "C07-basm-cluster-meta-order"⟩,
-  ⟨0x15b5496e9b9a1721, "range|pkg/basm/cluster.go|(*BasmInstance).Assembler2Cluster|l2.LoopMeta()|0", ["concat"], .finding "C07-basm-cluster-meta-order"⟩,
-  ⟨0x4134619913a469c6, "range|pkg/basm/cluster.go|(*BasmInstance).Assembler2Cluster|l2.LoopMeta()|1", ["accum", "calls", "concat"], .finding "C07-basm-cluster-meta-order"⟩,
-  ⟨0xf8e494ae36aec117, "range|pkg/basm/cluster.go|(*BasmInstance).Assembler2Cluster|l2.LoopMeta()|2", ["concat"], .finding "C07-basm-cluster-meta-order"⟩,
-  ⟨0x4f0ae0ee82b2d2de, "range|pkg/basm/cluster.go|(*BasmInstance).Assembler2Cluster|l2.LoopMeta()|3", ["concat"], .finding "C07-basm-cluster-meta-order"⟩,
-  ⟨0x4a3c2319f40afb64, "range|pkg/basm/cluster.go|(*BasmInstance).Assembler2Cluster|l2.LoopMeta()|4", ["accum", "append", "calls", "concat"], .finding "C07-basm-cluster-meta-order"⟩,
-  ⟨0xa1599e043af9ce55, "range|pkg/basm/cluster.go|sortedMetaKeys|m|0", ["append", "sorted"], .sortedAfter⟩,
-  ⟨0x3daf211f61a02be3, "range|pkg/basm/cluster.go|sortedNameKeys|m|0", ["append", "sorted"], .sortedAfter⟩,
   ⟨0xc8226c67df4c85f1, "range|pkg/basm/clusterchecker.go|clusterChecker|bi.clusteredNames|0", ["early"], .thm .membership⟩,
   ⟨0xcb0450a6be7a620b, "range|pkg/basm/clusterchecker.go|clusterChecker|bi.clusteredNames|1", ["keyed"], .thm .setInsert⟩,
   ⟨0xd7db3f56fd6248a4, "range|pkg/basm/clusterchecker.go|clusterChecker|bi.clusteredNames|2", ["accum", "append", "early"], .insens "existence test: device ids are unique values (enforced a few lines above), at most one entry matches, the body does not use the entry"⟩,
@@ -220,8 +216,6 @@ def rows : List Row := [
   ⟨0x7fdc539db386383d, "range|pkg/basm/matcherresolver.go|matcherResolver|bi.sections|0", ["accum", "calls", "early", "keyed", "output"], .thm .framedWalk⟩,
   ⟨0x3110178ab85af947, "range|pkg/basm/matcherresolver.go|matcherResolver|body.Lines[i].LoopMeta()|0", ["accum", "calls"], .thm .keyedCopy⟩,
   ⟨0xa6dd2a1d5a3e3fe4, "range|pkg/basm/matcherresolver.go|matcherResolver|body.Lines[i].LoopMeta()|1", ["accum", "calls"], .thm .keyedCopy⟩,
-  ⟨0xcf01ec80e386a44d, "range|pkg/basm/matcherresolver.go|matcherResolver|sectAlts|0", ["append"], .finding "C07-matcherresolver-altkeys"⟩,
-  ⟨0x72ad9d22b5ba6ac3, "range|pkg/basm/matcherresolver.go|matcherResolver|sectAlts|0", ["append", "sorted"], .sortedAfter⟩,
   ⟨0xb8166cefa721264a, "range|pkg/basm/matcherresolver.go|matcherResolver|sectionsIncoming|0", ["keyed"], .thm .keyedCopy⟩,
   ⟨0xa51ec73b43f66ed9, "range|pkg/basm/meta.go|(*BasmInstance).metaProcessor|resultDict|0", ["calls", "early"], .thm .keyedCopy⟩,
   ⟨0x8748c777fcefcd66, "range|pkg/basm/meta.go|(*BasmInstance).metaProcessor|resultDict|1", ["calls", "early"], .thm .keyedCopy⟩,
@@ -260,19 +254,11 @@ def rows : List Row := [
   ⟨0xf99bf66849266fdf, "range|pkg/bmline/transform.go|(*BasmBody).PrefixMeta|prefix.LoopMeta()|1", ["accum", "calls"], .thm .keyedCopy⟩,
   ⟨0x4da042309b08bd96, "range|pkg/bmline/transform.go|(*BasmBody).PrefixMeta|prefix.LoopMeta()|2", ["accum", "calls"], .thm .keyedCopy⟩,
   ⟨0xa1ff059b6c1aca41, "range|pkg/bmline/transform.go|(*BasmBody).PrefixMeta|prefix.LoopMeta()|3", ["accum", "calls"], .thm .keyedCopy⟩,
-  ⟨0xdfbf5d11acf23644, "range|pkg/bmmeta/metadata.go|(*BasmMeta).ListMeta|bm.metaData|0", ["append", "sorted"], .sortedAfter⟩,
   ⟨0x8c39be07d9e04da4, "range|pkg/bmnumbers/bmnumbers.go|init|t.importMatchers()|0", ["keyed"], .thm .keyedCopy⟩,
   ⟨0xd9c76593c9268bcd, "range|pkg/bmnumbers/dynamical_type.go|EventuallyCreateType|newType.importMatchers()|0", ["keyed"], .thm .keyedCopy⟩,
   ⟨0x27846a94d96448bc, "range|pkg/bmnumbers/import.go|ImportString|AllMatchers|0", ["calls", "early"], .thm .importString⟩,
   ⟨0x7bf769d3d2306045, "range|pkg/bmqsim/templates.go|(*BmQSimulator).ApplyTemplateBundle|allTemplates|0", ["calls", "early", "output"], .insens "one output file per key of a literal table: distinct paths; a template error aborts the tool"⟩,
   ⟨0x83d6a7976ad65a8f, "range|pkg/bmreqs/engine.go|(*ReqRoot).Clone|n.bmReqMap|0", ["accum", "calls", "early"], .thm .consumers⟩,
-  ⟨0xab825583c4216765, "range|pkg/bmreqs/engine.go|(*ReqRoot).Export|n.bmReqMap|0", ["accum", "append", "calls"], .finding "C07-bmreqs-dump-order"⟩,
-  ⟨0xcdbbf7d19162a09b, "range|pkg/bmreqs/engine.go|(*ReqRoot).recursiveDump|n.bmReqMap|0", ["calls", "concat"], .finding "C07-bmreqs-dump-order"⟩,
-  ⟨0xf41b45e96daba00f, "range|pkg/bmreqs/engine.go|sortedNames|m|0", ["append", "sorted"], .sortedAfter⟩,
-  ⟨0x923566b1c6cda846, "range|pkg/bmreqs/objectset.go|(*objectSet).getReqs|o.set|0", ["append"], .finding "C07-bmreqs-dump-order"⟩,
-  ⟨0xaee92352bcf81a3e, "range|pkg/bmreqs/objectset.go|(*objectSet).getReqs|o.set|0", ["append", "sorted"], .sortedAfter⟩,
-  ⟨0xe3538221957b9ed7, "range|pkg/bmreqs/objectset.go|(*objectSet).listSub|o.set|0", ["append"], .finding "C07-bmreqs-dump-order"⟩,
-  ⟨0x1dfaa4c562155571, "range|pkg/bmreqs/objectset.go|(*objectSet).listSub|o.set|0", ["append", "sorted"], .sortedAfter⟩,
   ⟨0x62d66fb401f3dcb5, "range|pkg/bondgo/bondgoextra.go|(*Output).Write|link_outputs|0", ["pure"], .offpath "runtime stub of the bondgo package, not part of the compiler"⟩,
   ⟨0x1289afd9240c2089, "range|pkg/bondgo/converter.go|(*BondgoCheck).Create_Bondmachine|bg.IOr|0", ["accum"], .thm .setInsert⟩,
   ⟨0x99792a54b5b6c347, "range|pkg/bondgo/converter.go|(*BondgoCheck).Create_Bondmachine|bg.IOr|1", ["accum", "append", "calls", "sorted"], .unproved "bonds are added to the machine in map order of the processor table (Add_bond appends to Links): bond numbering of multi-processor programs follows it"⟩,
@@ -294,9 +280,6 @@ def rows : List Row := [
   ⟨0x36960c7ab9eeaf88, "range|pkg/bondgo/requirements.go|(*BondgoRequirements).Dump_Requirements|reqmnt.IOr|0", ["calls", "concat"], .unproved "-show-requirements text lists processors / io / channels in map order (diagnostic output on stdout)"⟩,
   ⟨0x67d152c059e4b778, "range|pkg/bondgo/requirements.go|(*BondgoRequirements).Dump_Requirements|reqmnt.Procr|0", ["calls", "concat"], .unproved "-show-requirements text lists processors / io / channels in map order (diagnostic output on stdout)"⟩,
   ⟨0x4408ca4dadd0dec3, "range|pkg/bondgo/visiter.go|(*BondgoCheck).Visit|bg.Clean.Vars|0", ["calls", "early", "output", "send"], .insens "releases every variable of the scope; release order does not reach the emitted text"⟩,
-  ⟨0xe37e070db7433c33, "range|pkg/bondgo/visiter.go|(*BondgoCheck).Visit|newvars|0", ["calls", "early", "send"], .unproved "go statement with several arguments: registers and channel writes are allocated and emitted in map order of the argument table; one-argument goroutines are order free; no difference seen on the corpus"⟩,
-  ⟨0x82cc0583411a5406, "range|pkg/bondgo/visiter.go|(*BondgoCheck).Visit|vars|0", ["accum", "calls", "early", "keyed", "send"], .unproved "go statement with several arguments: registers and channel writes are allocated and emitted in map order of the argument table; one-argument goroutines are order free; no difference seen on the corpus"⟩,
-  ⟨0x6fb491f6bd1a4954, "range|pkg/bondgo/visiter.go|(*BondgoCheck).Visit|vars|1", ["calls", "early", "send"], .unproved "go statement with several arguments: registers and channel writes are allocated and emitted in map order of the argument table; one-argument goroutines are order free; no difference seen on the corpus"⟩,
   ⟨0xb7f805fd813d9087, "range|pkg/bondmachine/bmapi.go|(*Bondmachine).WriteBMAPI|apiFiles|0", ["calls", "early"], .insens "one output file per key of a literal table: distinct paths; an error aborts the tool"⟩,
   ⟨0x5748b5d5be3ee5e4, "range|pkg/bondmachine/bmapi.go|(*Bondmachine).WriteBMAPI|apiFiles|1", ["calls", "early"], .insens "one output file per key of a literal table: distinct paths; an error aborts the tool"⟩,
   ⟨0x4e35cb0ba595c175, "range|pkg/bondmachine/bmapi.go|(*Bondmachine).WriteBMAPI|auxFiles|0", ["calls", "early"], .insens "one output file per key of a literal table: distinct paths; an error aborts the tool"⟩,
@@ -312,7 +295,6 @@ def rows : List Row := [
   ⟨0x6a36787e524ee0b2, "range|pkg/bondmachine/bondmachine.go|(*Bondmachine).Dot|subresult|0", ["concat"], .unproved "graphviz clusters are emitted in map order (-emit-dot, a drawing, not a build artefact)"⟩,
   ⟨0x39f5d1bf7c29c51b, "range|pkg/bondmachine/bondmachine.go|(*Bondmachine).Dot|subresult|1", ["concat"], .unproved "graphviz clusters are emitted in map order (-emit-dot, a drawing, not a build artefact)"⟩,
   ⟨0xdc40f339dbb4a34c, "range|pkg/bondmachine/bondmachine.go|(*Bondmachine).GetMultiAssembly|bmach.List_bonds()|0", ["append"], .unproved "List_bonds returns a map: bond list of the multi assembly in map order"⟩,
-  ⟨0xe8d355d3aaf17ce4, "range|pkg/bondmachine/bondmachine.go|(*Bondmachine).GetUsedOpcodes|usedopcodes|0", ["append", "sorted"], .sortedAfter⟩,
   ⟨0x1e7770f74c0402c6, "range|pkg/bondmachine/deferred.go|(*VM).ExecuteDeferredInstructions|vm.DeferredInstructions|0", ["calls", "keyed"], .offpath "simulation (deferred instructions of the VM), C09"⟩,
   ⟨0xa9fcc41d1c5e8c87, "range|pkg/bondmachine/exmod_bmapi.go|(*BMAPIExtra).Get_Params|sl.Maps.Assoc|0", ["concat", "keyed"], .unproved "inputs / outputs comma lists of the bmapi extra module follow map order; consumers sort the keys (WriteVerilogBMAPI) but the lists themselves are emitted"⟩,
   ⟨0x9b528672e1e4d548, "range|pkg/bondmachine/exmod_bondirect.go|(*Bondirect_extra).ExtraFiles|wire2wireSenders|0", ["append"], .unproved "wire senders appended in map order; not exercised by the corpus (needs a bondirect cluster)"⟩,
@@ -323,27 +305,40 @@ def rows : List Row := [
   ⟨0x18e1be50a773dcfa, "range|pkg/bondmachine/exmod_uart.go|(*UartExtra).Get_Params|sl.Maps.Assoc|0", ["keyed"], .thm .keyedCopy⟩,
   ⟨0xc1641135e3e75961, "range|pkg/bondmachine/exmod_udpbond.go|(*Udpbond_extra).Get_Params|sl.Maps.Assoc|0", ["concat"], .unproved "comma lists of the extra module parameters follow map order of the io map; not exercised by the corpus (needs a cluster description)"⟩,
   ⟨0xac1d6227958dfc80, "range|pkg/bondmachine/exmod_udpbond.go|(*Udpbond_extra).Get_Params|sl.Maps.Assoc|1", ["concat"], .unproved "comma lists of the extra module parameters follow map order of the io map; not exercised by the corpus (needs a cluster description)"⟩,
-  ⟨0xb5d494a137dfa499, "range|pkg/bondmachine/verilog.go|(*Bondmachine).WriteVerilogBMAPI|bmapiParams|0", ["append", "sorted"], .sortedAfter⟩,
   ⟨0xe6be2c19af16f794, "range|pkg/bondmachine/verilog.go|(*Bondmachine).Write_verilog_board|resolved_io|0", ["calls", "concat", "early"], .unproved "board glue emitted per resolved io in map order; not exercised by the corpus (needs a board mapping)"⟩,
   ⟨0x3d0855a93026b0d1, "range|pkg/bondmachine/verilog.go|(*Bondmachine).Write_verilog_board|uartParams|0", ["concat", "output"], .unproved "uart port list emitted in map order; not exercised by the corpus (needs -uart-mapfile)"⟩,
   ⟨0x165ddbeca674a11a, "range|pkg/bondmachine/verilog.go|(*Bondmachine).Write_verilog_board|uartParams|1", ["concat", "output"], .unproved "uart port list emitted in map order; not exercised by the corpus (needs -uart-mapfile)"⟩,
-  ⟨0x2c2a8c8ead5afbef, "range|pkg/neuralbond/neuralbond.go|(*TrainedNet).WriteBasm|ProcessedNodes|0", ["concat"], .finding "C07-neuralbond-cpdef-order"⟩,
-  ⟨0xd596246726870f91, "range|pkg/neuralbond/neuralbond.go|(*TrainedNet).WriteBasm|ProcessedNodes|0", ["append", "sorted"], .sortedAfter⟩,
   ⟨0xf9e9fc7c270aac2f, "range|pkg/neuralbond/neuralbond.go|(*TrainedNet).WriteBasm|c.List|0", ["keyed"], .thm .setInsert⟩,
-  ⟨0x9857194de328b30f, "range|pkg/procbuilder/deferred.go|(*VM).ExecuteDeferredInstructions|vm.DeferredInstructions|0", ["calls", "keyed"], .offpath "simulation (deferred instructions of the VM), C09"⟩
+  ⟨0x9857194de328b30f, "range|pkg/procbuilder/deferred.go|(*VM).ExecuteDeferredInstructions|vm.DeferredInstructions|0", ["calls", "keyed"], .offpath "simulation (deferred instructions of the VM), C09"⟩,
+  ⟨0xbc24251af4206835, "sortcmp|pkg/basm/creatorbm.go|(*BasmInstance).CreateConnectingProcessor|sort.Slice(ins)|0", ["calls"], .insens "compareStrings compares only the first number in the name (r1 and r01 tie), but the sorted list is used only through its length and the NUMBER of its last element, which is the same for every arrangement of tied elements"⟩,
+  ⟨0x6cfaddcfd735b8c6, "sortcmp|pkg/basm/creatorbm.go|(*BasmInstance).CreateConnectingProcessor|sort.Slice(outs)|0", ["calls"], .insens "compareStrings compares only the first number in the name (r1 and r01 tie), but the sorted list is used only through its length and the NUMBER of its last element, which is the same for every arrangement of tied elements"⟩,
+  ⟨0xb27df47c8dc40994, "sortcmp|pkg/basm/creatorbm.go|(*BasmInstance).CreateConnectingProcessor|sort.Slice(regs)|0", ["calls"], .insens "compareStrings compares only the first number in the name (r1 and r01 tie), but the sorted list is used only through its length and the NUMBER of its last element, which is the same for every arrangement of tied elements"⟩,
+  ⟨0x35c24be1eb68369b, "sortcmp|pkg/basm/creatorbm.go|(*BasmInstance).CreateConnectingProcessor|sort.Sort(procbuilder.ByName(opCodes))|0", ["iface"], .insens "ByName.Less is < on Op_get_name(): a total order on the elements because opcode names are unique in Allopcodes (EventuallyCreateInstruction refuses a second opcode of the same name)"⟩,
+  ⟨0x97196f9bf094ca59, "sortcmp|pkg/basm/templateresolver.go|templateResolver|sort.Sort(bmline.ByName(bi.cps))|0", ["iface"], .insens "bmline.ByName.Less is < on the element value (the CP name); metaProcessor keeps one element per CP name"⟩,
+  ⟨0x0c3170105da858a1, "sortcmp|pkg/bondgo/converter.go|(*BondgoCheck).Create_Connecting_Processor|sort.Sort(procbuilder.ByName(opcodes))|0", ["iface"], .insens "ByName.Less is < on Op_get_name(): a total order on the elements because opcode names are unique in Allopcodes (EventuallyCreateInstruction refuses a second opcode of the same name)"⟩,
+  ⟨0xf578f9fc1dfbea3a, "sortcmp|pkg/bondmachine/bmapi.go|(*Bondmachine).WriteBMAPI|sort.Slice(sortedKeys)|0", ["calls", "loop", "multi"], .unproved "natural-order comparator without tie-break: keys that differ only in leading zeros of the index compare equal and keep map order; the bmapi flow is not exercised by the corpus"⟩,
+  ⟨0xd8cd1091d48398ef, "sortcmp|pkg/bondmachine/bmapi.go|(*Bondmachine).WriteBMAPI|sort.Slice(sortedKeys)|1", ["calls", "loop", "multi"], .unproved "natural-order comparator without tie-break: keys that differ only in leading zeros of the index compare equal and keep map order; the bmapi flow is not exercised by the corpus"⟩,
+  ⟨0x55b70ce3c8a91306, "sortcmp|pkg/bondmachine/bondmachine.go|(*Bondmachine).AttachBenchmarkCoreV2|sort.Sort(procbuilder.ByName(opcodes))|0", ["iface"], .insens "ByName.Less is < on Op_get_name(): a total order on the elements because opcode names are unique in Allopcodes (EventuallyCreateInstruction refuses a second opcode of the same name)"⟩,
+  ⟨0xe31d0563eaef5234, "sortcmp|pkg/bondmachine/bondmachine.go|(*Bondmachine).Attach_benchmark_core|sort.Sort(procbuilder.ByName(opcodes))|0", ["iface"], .insens "ByName.Less is < on Op_get_name(): a total order on the elements because opcode names are unique in Allopcodes (EventuallyCreateInstruction refuses a second opcode of the same name)"⟩,
+  ⟨0xa32de049cb0a5889, "sortcmp|pkg/procbuilder/evolutionary.go|(*Machine).MelInit|sort.Sort(ByName(opcodes))|0", ["iface"], .offpath "evolutionary tools (mel), not a build path"⟩
 ]
 
 /-- Does the table classify every generated site (same identity, same class)?  One merge pass:
     both lists are sorted by identity (the extractor sorts its output; KEEP `rows` SORTED BY ID,
-    bytewise — rows for the same site before / after a fix patch are adjacent), so the kernel
-    does at most `rows.length` comparisons — of the numeric keys (`siteKey id cls`), not of the
-    strings.  `keys_ok` below recomputes every row's key from its strings when this file is
-    compiled, so a row cannot claim a key that is not the hash of what it says. -/
-def covered : List Site → List Row → Bool
+    bytewise), so the kernel does at most `rows.length` comparisons — of the numeric keys
+    (`siteKey id cls`), not of the strings.  The `#eval` below recomputes every row's key from its
+    strings when this file is compiled, so a row cannot claim a key that is not the hash of what it
+    says. -/
+def coveredRows : List Site → List Row → Bool
   | [], _ => true
   | _ :: _, [] => false
   | s :: ss, r :: rs =>
-    if r.key == s.key then covered ss rs else covered (s :: ss) rs
+    if r.key == s.key then coveredRows ss rs else coveredRows (s :: ss) rs
+
+/-- sites of the generic shape (`Sched.sortedKeysKey`) are accepted by the rule, all the others need
+    their row -/
+def covered (sites : List Site) (rows : List Row) : Bool :=
+  coveredRows (sites.filter (fun s => s.key != sortedKeysKey)) rows
 
 /-- rows whose key is not the hash of their identity and class (must be empty) -/
 def badKeys : List (String × Nat) :=
@@ -354,5 +349,7 @@ def badKeys : List (String × Nat) :=
 #eval show IO Unit from do
   unless badKeys.isEmpty do
     throw (IO.userError s!"SchedExpect: rows with a wrong key (id, expected key): {badKeys}")
+  unless siteKey "*" ["sortedkeys"] == sortedKeysKey do
+    throw (IO.userError s!"Sched.sortedKeysKey must be {siteKey "*" ["sortedkeys"]}")
 
 end BMV.Sched.Expect
